@@ -223,6 +223,10 @@ class RecLogger(_RecMixin, TracepointLogger):
 
 
 class RecSpan(Span):
+    def __len__(self):
+        # (a span object can be falsy - one that counts its attributes or events, none so far: it is a span all the same)
+        return 0
+
     def __init__(self, proc, name, ctx_id, tp_id):
         self.proc = proc
         self._name = name
